@@ -443,7 +443,9 @@ void run(vf::Ctx &c) {
             if (!ok && M.collected && g.start > M.prev_a && g.start < M.prev_b) ok = true;
             if (!ok) {
               bool overlap = q.emitted && g.start < q.prev_emit_end;
-              std::string sig = overlap ? "C06:delta-start-ts:overlaps-previous-interval" : "C06:delta-start-ts:does-not-abut";
+              // one reader / several readers: the two code paths of TemporalMetricStorage::buildMetrics;
+              // after a second Create the stream may come from another storage altogether
+              std::string sig = std::string(overlap ? "C06:delta-start-ts:overlaps-previous-interval" : "C06:delta-start-ts:does-not-abut") + (handles.size() > 1 ? ":multi-handle" : R == 1 ? ":single-reader" : ":multi-reader");
               std::string msg = vf::sfmt("delta stream '%s' for reader r%d covers (%lld, %lld] ns but this reader's previous interval ended at %lld ns%s", streams[s].name.c_str(), r,
                                          (long long)(g.start - vf::clock_system_base_ns()), (long long)(g.end - vf::clock_system_base_ns()),
                                          (long long)((q.emitted ? q.prev_emit_end : sdk_start) - vf::clock_system_base_ns()), start_is_sdk_start ? " (it starts at SDK start again)" : "") + where;
